@@ -275,7 +275,7 @@ fn run_chunk(id: &str, tier: Tier, verbose: bool) -> ChunkOut {
 pub fn write_transcript(tier: Tier, out: &str, chunk: Option<&str>) -> i32 {
     let mut text = String::new();
     if let Some(id) = chunk {
-        let c = run_chunk(id, tier, true);
+        let c = std::thread::scope(|sc| sc.spawn(|| run_chunk(id, tier, true)).join().expect("chunk thread"));
         for l in c.lines {
             text.push_str(&l);
             text.push('\n');
@@ -284,7 +284,9 @@ pub fn write_transcript(tier: Tier, out: &str, chunk: Option<&str>) -> i32 {
         let ids = chunk_ids(tier);
         let results = std::sync::Mutex::new(BTreeMap::<usize, String>::new());
         par_items(ids.len(), threads(), |i, _| {
-            let c = run_chunk(&ids[i], tier, false);
+            // every chunk in a thread of its own: its digest is then a function of the chunk alone
+            // (thread-local state starts fresh), the same in the full run and when the chunk is re-run
+            let c = std::thread::scope(|sc| sc.spawn(|| run_chunk(&ids[i], tier, false)).join().expect("chunk thread"));
             let line = format!("{}\t{}\t{:016x}\t{}", ids[i], c.count, c.g, if c.has_t { format!("{:016x}", c.t) } else { "-".into() });
             results.lock().unwrap().insert(i, line);
         });
@@ -352,7 +354,25 @@ pub fn compare(tier: Tier, only_chunk: Option<&str>) -> (Acc, Value) {
         println!("MACHINERY: C17 needs C17_BINARIES=name=path,... (set by ./check)");
         std::process::exit(2);
     }
+    if let Some(id) = only_chunk {
+        // replay of one chunk: only that chunk is executed, in every variant
+        for vi in 1..variants.len() {
+            acc.evals += 1;
+            for typed in [false, true] {
+                if let Some((input, a, b)) = localize(&variants[0], &variants[vi], id, tier, typed) {
+                    acc.violate(Violation {
+                        prop: "C17",
+                        kind: if typed { "typed-api-differs".into() } else { "generic-api-differs".into() },
+                        case: json!({"engine": "transcript", "chunk": id, "variants": [variants[0].0, variants[vi].0]}),
+                        detail: format!("first differing input {input}: {} gives {a}, {} gives {b}", variants[0].0, variants[vi].0),
+                    });
+                }
+            }
+        }
+        return (acc, json!({"engine": "transcripts", "replayed_chunk": id}));
+    }
     let dir = std::env::temp_dir();
+    let mut localized = 0usize;
     let mut tables: Vec<BTreeMap<String, (u64, String, String)>> = Vec::new();
     let handles: Vec<_> = variants
         .iter()
@@ -397,7 +417,9 @@ pub fn compare(tier: Tier, only_chunk: Option<&str>) -> (Acc, Value) {
                 continue;
             };
             if c != count || g != g0 {
-                let loc = localize(&variants[0], &variants[vi], id, tier, false);
+                // (a re-run per differing chunk: only for the first few)
+                localized += 1;
+                let loc = if localized <= 8 { localize(&variants[0], &variants[vi], id, tier, false) } else { None };
                 acc.violate(Violation {
                     prop: "C17",
                     kind: "generic-api-differs".into(),
@@ -409,7 +431,8 @@ pub fn compare(tier: Tier, only_chunk: Option<&str>) -> (Acc, Value) {
                 });
             }
             if t != "-" && t0 != "-" && t != t0 {
-                let loc = localize(&variants[0], &variants[vi], id, tier, true);
+                localized += 1;
+                let loc = if localized <= 8 { localize(&variants[0], &variants[vi], id, tier, true) } else { None };
                 acc.violate(Violation {
                     prop: "C17",
                     kind: "typed-api-differs".into(),
